@@ -244,10 +244,11 @@ Definition docfile (w : world) (h : handle) : path := jobdir w h ++ [DOCF].
 Definition register (w : world) (si : nat) (i : str) (sp : json) : world :=
   let s := getS w si in set_S w si (mkS (s_root s) (aset i sp (s_cache s)) (s_cread s)).
 
-(* directory names that project._job_dirs yields: JOB_ID_REGEX.match, i.e. the first 32 characters
-   are lower-case hex (a PREFIX match: "<32 hex>.bak" is listed too, finding F2 of the design) *)
+(* directory names that project._job_dirs yields: JOB_ID_REGEX.fullmatch (since fix 5a38a4a), i.e. exactly 32
+   lower-case hex characters.  (The first conjunct is implied by the second; it is kept because other files
+   destruct the definition to obtain 32 <= length.) *)
 Definition id_match (n : str) : bool :=
-  Nat.leb 32 (length n) && forallb lower_hex (firstn 32 n).
+  Nat.leb 32 (length n) && (Nat.eqb (length n) 32 && forallb lower_hex n).
 
 Definition job_dirs (f : fs) (wsd : path) : list str :=
   match listdir f wsd with
